@@ -690,27 +690,32 @@ func runC19Extra(res *procxResult) {
 		cfg := PipeCfg{Conc: 3, QL: -1, RetCount: 1, Graph: map[string][]string{"a": nil},
 			Script: map[string][]string{"a": {"printf 'start-%s;' '{{ .n }}'", "sleep {{ .d }}", "printf 'end-%s' '{{ .n }}'"}}}
 		pw := newProcWorld(mkDefs(map[string]PipeCfg{"r": cfg}), 0)
-		ja, _ := pw.r.ScheduleAsync("r", prunner.ScheduleOpts{Variables: map[string]interface{}{"n": "A", "d": "0.8"}})
+		ja, _ := pw.r.ScheduleAsync("r", prunner.ScheduleOpts{Variables: map[string]interface{}{"n": "A", "d": "4"}})
 		time.Sleep(20 * time.Millisecond)
 		jb, _ := pw.r.ScheduleAsync("r", prunner.ScheduleOpts{Variables: map[string]interface{}{"n": "B", "d": "0"}})
 		time.Sleep(20 * time.Millisecond)
 		jc, _ := pw.r.ScheduleAsync("r", prunner.ScheduleOpts{Variables: map[string]interface{}{"n": "C", "d": "0"}})
 		pw.wait(jb.ID, 10*time.Second)
 		pw.wait(jc.ID, 10*time.Second)
+		stillRunning := false
+		_ = pw.r.ReadJob(ja.ID, func(j *prunner.PipelineJob) { stillRunning = !j.Completed && !j.Canceled })
 		pw.r.SaveToStore() // B (older finished) goes, C stays, A is still running
-		pw.wait(ja.ID, 10*time.Second)
+		pw.wait(ja.ID, 30*time.Second)
 		res.Cases++
 		res.Distinct++
 		got, err := pw.output(ja.ID, "a", "stdout")
-		if err != nil || string(got) != "start-A;end-A" {
+		if !stillRunning {
+			// on a very slow machine A (4 s) ended before B and C did: the situation did not arise, nothing to judge
+			res.inconclusive("retention while a job runs: the long job had already finished when the save was made")
+		} else if err != nil || string(got) != "start-A;end-A" {
 			res.add("running-job-logs-hit-by-retention", fmt.Sprintf("a save removed finished jobs while an older job of the pipeline was still running; afterwards that job's output is %q (err %v), want %q", got, err, "start-A;end-A"))
 		}
 		_, body := apiGet(pw.h, "GET", "/job/logs?id="+ja.ID.String()+"&task=a", "")
 		api, _ := decodeJSON(body).(map[string]interface{})
-		if as, _ := api["stdout"].(string); as != "start-A;end-A" {
+		if as, _ := api["stdout"].(string); stillRunning && as != "start-A;end-A" {
 			res.add("running-job-logs-hit-by-retention:api", fmt.Sprintf("the log API returns %q for the job that was running during the save", as))
 		}
-		if _, err := pw.output(jb.ID, "a", "stdout"); err == nil {
+		if _, err := pw.output(jb.ID, "a", "stdout"); err == nil && stillRunning {
 			res.add("removed-job-logs-remain", "the logs of the job removed by retention are still readable")
 		}
 		pw.close()
@@ -1141,22 +1146,28 @@ func runRealFailures(prop string) procxResult {
 				if k.n == "second-command-fails" {
 					script = []string{"printf first", "sh -c 'exit 4'", "printf third"}
 				}
+				// the independent task is short where it has to run to its end, and long where the failure has to stop it: no
+				// verdict may depend on how quickly a loaded machine delivers the stop
+				sibling := "sleep 0.4"
+				if !allow && !cont {
+					sibling = "sleep 20"
+				}
 				cfg := PipeCfg{Conc: 1, QL: -1, Continue: cont,
 					Graph:  map[string][]string{"f": nil, "d": {"f"}, "s": nil},
 					Allow:  map[string]bool{"f": allow},
-					Script: map[string][]string{"f": script, "d": {"printf dependent-ran"}, "s": {"sleep 0.4", "printf sibling-ran"}}}
+					Script: map[string][]string{"f": script, "d": {"printf dependent-ran"}, "s": {sibling, "printf sibling-ran"}}}
 				pw := newProcWorld(mkDefs(map[string]PipeCfg{"p": cfg}), 200*time.Millisecond)
 				j, err := pw.r.ScheduleAsync("p", prunner.ScheduleOpts{})
 				if err != nil {
 					panic(err)
 				}
-				v, ok := pw.wait(j.ID, 30*time.Second)
+				v, ok := pw.wait(j.ID, 60*time.Second)
 				res.Cases++
 				res.Distinct++
 				desc := fmt.Sprintf("task f runs %q (allow_failure=%v, continue_running_tasks_after_failure=%v)", script, allow, cont)
 				_ = k.n
 				if !ok {
-					res.inconclusive(desc + ": the job did not finish within 30s")
+					res.inconclusive(desc + ": the job did not finish within 60s")
 					pw.close()
 					continue
 				}
@@ -1192,7 +1203,7 @@ func runRealFailures(prop string) procxResult {
 						res.add("independent-task-not-run-to-end:"+k.n, desc+": the independent task did not run to its natural end although continue_running_tasks_after_failure is set")
 					}
 					if !cont && string(sOut) == "sibling-ran" && k.n != "second-command-fails" {
-						res.add("fail-fast-does-not-stop-sibling:"+k.n, desc+": the independent task (0.4s) ran to its end although the failure came first")
+						res.add("fail-fast-does-not-stop-sibling:"+k.n, desc+": the independent task (20s) ran to its end although the failure came first")
 					}
 				}
 				if len(res.Samples) < 2 {
